@@ -403,10 +403,12 @@ fn graph_sx(g: &[GN]) -> String {
     format!("(graph{})", g.iter().map(|n| format!(" (node {}{})", sx::q(&n.name), n.edges.iter().map(|(d, w)| format!(" (edge {} {})", sx::q(d), match w { Some(w) => sx::num(*w), None => "none".into() })).collect::<String>())).collect::<String>())
 }
 fn gen_graph(r: &mut Rng) -> Vec<GN> {
-    let names = ["P", "Q", "R", "T2", "U"];
+    // declaration order, numeric order and byte order of the names all differ; adjacency lists in random order
+    let names = ["S", "n2", "B", "n10", "a"];
     let n = 1 + r.below(5);
     let mut g: Vec<GN> = (0..n).map(|i| GN { name: names[i].to_string(), edges: vec![] }).collect();
     for i in 0..n { for j in 0..n { if r.chance(2, 5) { let w = match r.below(4) { 0 => None, 1 => Some(r.range(-4, 9) as f64 / 2.0), 2 => Some(0.0), _ => Some(r.range(1, 5) as f64) }; g[i].edges.push((names[j].to_string(), w)); } } }
+    for i in 0..n { for k in (1..g[i].edges.len()).rev() { let j = r.below(k + 1); g[i].edges.swap(k, j); } }
     // `Graph { P, Q }` without any edge list is read as a block function: keep one edge
     if g.iter().all(|x| x.edges.is_empty()) { let d = g[n - 1].name.clone(); g[0].edges.push((d, None)); }
     g
